@@ -714,3 +714,22 @@ Proof.
   split; auto. split; auto. intro i. destruct (T0 i) as (ops & ->). simpl. repeat split; auto.
   apply Forall_forall. intros o Ho. apply in_map_iff in Ho as (c & <- & _). reflexivity.
 Qed.
+
+(* ---------- more of the sources pinned ---------- *)
+(* GC's sweep: algorithm directory, then name validation, then graph membership, then the removal;
+   the known algorithms; the kind-level model of stray files agrees with them *)
+Lemma gc_sweep_as_in_the_sources :
+  c08_calls_GC_sweep = [b "isKnownAlgorithm"; b "blobDigest.Validate"; b "reachableNodes.Contains"; b "os.Remove"] /\
+  c08_known_algorithms = ["digest.SHA256"; "digest.SHA512"; "digest.SHA384"]%string /\
+  forall k, stray_swept (fst (stray_of_kind k)) (snd (stray_of_kind k)) = gc_sweeps_stray k.
+Proof. split; [reflexivity|]. split; [reflexivity|]. intros []; reflexivity. Qed.
+
+(* loadIndex: digest entry (ref name stripped), then the tag, then IndexAll - the order of load_entry;
+   Store.tag: both registrations before the save; delete(): references and graph before the save,
+   the blob last *)
+Lemma load_and_delete_order_as_in_the_sources :
+  c08_calls_loadIndex = [b "tagger.Tag"; b "deleteAnnotationRefName"; b "tagger.Tag"; b "graph.IndexAll"] /\
+  c08_calls_tag = [b "s.tagResolver.Tag"; b "s.tagResolver.Tag"; b "s.saveIndex"] /\
+  c08_calls_delete = [b "s.tagResolver.Untag"; b "s.graph.Remove"; b "s.saveIndex"; b "s.storage.Delete"] /\
+  c08_calls_GC = [b "s.sync.Lock"; b "s.gcIndex"; b "s.saveIndex"; b "os.Remove"].
+Proof. repeat split; reflexivity. Qed.
